@@ -9,7 +9,7 @@
    identities already handed out; it holds initially and after every step (run_wf). *)
 From Coq Require Import List Arith ZArith Bool.
 Import ListNotations.
-Require Import MD.Traj.Model MD.Traj.Lists MD.Traj.Proofs.
+Require Import MD.Traj.Model MD.Traj.Lists MD.Traj.Proofs MD.Traj.NoSharing.
 
 (* ---- numpy index semantics used by the specifications *)
 Theorem key_positions_in_range : forall n k idx s,
@@ -147,6 +147,22 @@ Theorem cache_inv_from : forall ops w,
   wf w -> cinv w -> guarded inplace_guard v_fix w ops = true -> cinv (fst (run v_fix w ops)).
 Proof. exact run_cinv. Qed.
 Print Assumptions cache_inv_from.
+
+(* the same without any condition on the states met: histories that never put two trajectories over one xyz
+   buffer (no slice(copy=False), no t.xyz = u.xyz); of the guard only "superpose on a register whose topology and
+   coordinates agree on the atom count" remains *)
+Theorem cache_inv_no_shared_buffers : forall sps ops,
+  forallb plain_op ops = true -> guarded top_guard v_fix (init_world sps) ops = true ->
+  cinv (fst (run v_fix (init_world sps) ops)).
+Proof. exact run_cinv_plain. Qed.
+Print Assumptions cache_inv_no_shared_buffers.
+
+Example plain_history_exists :
+  forallb plain_op ops_plain_demo = true /\ guarded top_guard v_fix (init_world specs1) ops_plain_demo = true /\
+  snd (run v_fix (init_world specs1) ops_plain_demo) = [ROk; ROk; ROk; ROk; ROk; ROk; ROk; ROk; ROk; ROk] /\
+  cinvb (fst (run v_fix (init_world specs1) ops_plain_demo)) = true.
+Proof. exact plain_demo. Qed.
+Print Assumptions plain_history_exists.
 
 (* consequently the precentred shortcut reads exactly what a from-scratch computation computes *)
 Theorem rmsd_precentered_eq : forall w t c,
